@@ -140,7 +140,7 @@ theorem tri_sem (ctx : MotionCtx s ps sub C lin m0 body) {var : Int} {p p' expr 
     clear hinc hsum hstep hsplit hrec hlinp
     induction linears with
     | nil => rfl
-    | cons il linears ih => simp only [sumL_cons, ih, accN_lin]
+    | cons il linears _ => simp only [sumL_cons, accN_lin]
   obtain ⟨hfold, hfvars⟩ := triFold_spec expr n m0 (mid body sub.pending m0) htri linears
     (fun il hil k => linPart_mid ctx (hlinp il hil) k) (Expr.mul expr cst, other)
   refine ⟨_, Or.inl rfl, ?_, ?_⟩
